@@ -556,6 +556,10 @@ func boundOfArg(x ast.BaseTerm, varRanges map[ast.Variable]ast.BaseTerm, nameTri
 			return symbols.NewListType(symbols.UpperBound(nil /*TODO*/, argTypes))
 
 		case symbols.Map.Symbol:
+			if len(z.Args)%2 != 0 {
+				// Not key/value pairs: ill-formed (evaluation reports it); no type rather than an index panic.
+				return symbols.EmptyType
+			}
 			var keyTpes []ast.BaseTerm
 			var valTpes []ast.BaseTerm
 			for i := 0; i < len(z.Args); i++ {
@@ -566,6 +570,9 @@ func boundOfArg(x ast.BaseTerm, varRanges map[ast.Variable]ast.BaseTerm, nameTri
 			return symbols.NewMapType(symbols.UpperBound(nil /*TODO*/, keyTpes), symbols.UpperBound(nil /*TODO*/, valTpes))
 
 		case symbols.Struct.Symbol:
+			if len(z.Args)%2 != 0 {
+				return symbols.EmptyType
+			}
 			var fields []ast.BaseTerm
 			for i := 0; i < len(z.Args); i++ {
 				fields = append(fields, z.Args[i])
@@ -576,6 +583,9 @@ func boundOfArg(x ast.BaseTerm, varRanges map[ast.Variable]ast.BaseTerm, nameTri
 			return symbols.NewStructType(fields...)
 
 		case symbols.StructGet.Symbol:
+			if len(z.Args) != 2 {
+				return symbols.EmptyType
+			}
 			structTpe := boundOfArg(z.Args[0], varRanges, nameTrie)
 			if !symbols.IsStructTypeExpression(structTpe) {
 				return symbols.EmptyType
